@@ -839,6 +839,17 @@ fn leg_b(o: &Opts) -> i32 {
                         "expected": fv.expected, "observed": fv.observed, "minimised": info,
                         "original": {"scenario_ops": sc.to_json(), "scheduler": kind_json(&kind)},
                     });
+                    // the replay file must reproduce in a fresh process (what `./check replay` does)
+                    let mut doc = doc;
+                    if let Some(dir) = path.parent() {
+                        std::fs::create_dir_all(dir).ok();
+                    }
+                    if std::fs::write(&path, serde_json::to_string_pretty(&doc).unwrap()).is_ok() {
+                        let fresh = std::env::current_exe().ok().and_then(|me| {
+                            std::process::Command::new(me).arg("replay").arg(&path).stdout(std::process::Stdio::null()).stderr(std::process::Stdio::null()).status().ok()
+                        });
+                        doc["reproduced_in_fresh_process"] = serde_json::json!(fresh.and_then(|s| s.code()) == Some(1));
+                    }
                     rep.violations.push(serde_json::json!({"class": fv.class, "scenario": scenario, "key": key, "replay": path, "doc": doc}));
                 }
             }
